@@ -716,6 +716,15 @@ def replay_loop(ctx, g):
 
     def is_res(x):
         return ng.key(x).startswith(K("placeholders([c[0] for c in self.constraints])")[:-2])
+    # for c, (orig, scale, meta) in zip(res[:n], self.constraints): the stored table itself rides along, unpacked in place
+    if isinstance(it, ast.Call) and ast.unparse(it.func) == "zip" and len(it.args) == 2 and isinstance(l.target, ast.Tuple) and len(l.target.elts) == 2:
+        pairs = list(zip(l.target.elts, it.args))
+        resp = [(t, a) for t, a in pairs if is_res_prefix(a)]
+        tab = [(t, a) for t, a in pairs if ast.unparse(a) == "self.constraints"]
+        if len(resp) == 1 and len(tab) == 1 and isinstance(resp[0][0], ast.Name) and isinstance(tab[0][0], ast.Tuple) and len(tab[0][0].elts) == 3 \
+                and all(isinstance(e, ast.Name) for e in tab[0][0].elts):
+            o, sv, mv = [e.id for e in tab[0][0].elts]
+            return l, resp[0][0].id, sv, mv, True, ast.unparse(it)[:120]
     if isinstance(it, ast.Call) and ast.unparse(it.func) == "zip" and len(it.args) >= 3 and isinstance(l.target, ast.Tuple) and len(l.target.elts) == len(it.args) \
             and all(isinstance(e, ast.Name) for e in l.target.elts):
         # the columns are recognised by what they iterate over, whatever their order; further columns of the same
